@@ -88,9 +88,10 @@ Definition t_fold (o : oracles) (a b : bytes) : bool :=
                (map (fun e => ((fst (fst e), snd (fst e)), snd e)) (o_fold o)) with
   | Some r => r | None => false end.
 
-Definition m_exec (o : oracles) :=
-  exec c_receipt_key c_ack_key c_commitment_key c_nextseq_key c_valid_name
-       (t_decode o) (t_pack o) (t_sha o) (t_decode_ack o) (t_pack_ack o) (t_verify o) (t_bech32 o) (t_fold o).
+Definition m_params (o : oracles) : params :=
+  mkParams c_receipt_key c_ack_key c_commitment_key c_nextseq_key c_valid_name
+           (t_decode o) (t_pack o) (t_sha o) (t_decode_ack o) (t_pack_ack o) (t_verify o) (t_bech32 o) (t_fold o).
+Definition m_exec (o : oracles) := exec (m_params o).
 
 (** ** cases *)
 Record ostep := mkOStep {
